@@ -16,7 +16,8 @@ def build(ctx, tier):
     jobs = []
     for i in range(n):
         rng = vlib.rng_for(ctx["seed"], "C04/%d" % i)
-        w = runprops.world_for("hist", ctx["seed"], i)
+        # every fifth world: multi-file torrents with many padding files, most of them NOT ending on a piece boundary
+        w = runprops.world_for("hist", ctx["seed"], i, pad_heavy=(i % 5 == 4))
         steps = []
         for s in range(rng.choice([2, 2, 3, 4])):
             scans = [sc for sc in w.scans if rng.random() < 0.7] or list(w.scans[:1])
